@@ -318,6 +318,12 @@ class AsyncServer(Entity):
                     # Return generator for I/O processing
                     def io_wrapper():
                         io_start = self.now.to_seconds()
+                        # The CPU is free now: hand the queue-processing event to the
+                        # engine at this instant, not after this request's I/O wait
+                        # (it was stamped before the wait and would lie in the past).
+                        if result_events:
+                            yield 0.0, list(result_events)
+                            result_events.clear()
                         result = yield from io_result
                         io_time = self.now.to_seconds() - io_start
                         self._io_times.append(io_time)
